@@ -3,6 +3,7 @@ import Driver.AggRetrieval
 import MlModel.Model.Agg.ThrHeap
 import MlModel.Model.Agg.CmStateHeap
 import MlModel.Model.Agg.HistHeap
+import MlModel.Model.Agg.HeapMS
 open Lean MlModel MlModel.Agg MlModel.Agg.Heap
 namespace Driver.AggObs
 
@@ -12,7 +13,9 @@ aliasing sub-check `harness/agg/heapobs.py` (work package C11T).
 A request carries a class name, its configuration and a program of
 `{"op":"make"}`, `{"op":"add","acc":i,"batch":…}`, `{"op":"merge","acc":i,"other":j}`,
 `{"op":"result","acc":i}`, `{"op":"poke","out":k,"arr":n,"val":v}` (fill the n-th private array of
-the k-th returned value with `v`).  After every operation the driver reports
+the k-th returned value with `v`), `{"op":"merge_states","accs":[i, j, …]}` (ONE n-ary call:
+`SysR.mergeStates` of `Model/Agg/HeapMS.lean`, work package SC11; an empty list answers the class's
+`emptyMergeErr`).  After every operation the driver reports
 
 * `refs`  — for every accumulator the references of its public arrays (fixed order) and for every
   returned value the references of its arrays (`priv ++ exposed`); equal numbers = the same buffer;
@@ -28,6 +31,9 @@ structure ObsClass (C B : Type) where
   scalars : cls.Obj → List Json
   addErr : Heap C → cls.Obj → B → Option String
   mergeErr : Heap C → cls.Obj → cls.Obj → Option String
+  /-- what `merge_states([])` raises (`next()` of an exhausted iterator in base.py:197; the
+  confusion-matrix loop returns `None` instead) -/
+  emptyMergeErr : Option String := some "StopIteration"
   cellJson : C → Json
   /-- the content a `poke` with fill value `v` gives a cell -/
   fill : Int → C → C
@@ -66,6 +72,12 @@ def runObs {C B : Type} [Inhabited C] (k : ObsClass C B) (prog : List Json) : Ex
       | some s, some o => err := k.mergeErr σ.heap s o
       | _, _ => throw s!"merge: no accumulator {i} / {j}"
       σ := σ.step (.base (.merge i j))
+    | "merge_states" =>
+      let ids ← (← Driver.getArr op "accs").toList.mapM fun (x : Json) => x.getNat?
+      for i in ids do
+        if (σ.objs[i]?).isNone then throw s!"merge_states: no accumulator {i}"
+      if mergeStatesRaises ids then err := k.emptyMergeErr
+      σ := σ.stepM (.mergeStates ids)
     | "result" =>
       let i ← Driver.getNat op "acc"
       σ := σ.step (.result i)
@@ -113,6 +125,7 @@ def cmStateObs : ObsClass SH.Cell SH.Batch where
   scalars := fun _ => []
   addErr := fun _ _ _ => none
   mergeErr := fun _ _ _ => none
+  emptyMergeErr := none
   cellJson := fun (c : List Int) => toJson c
   fill := fun v (c : List Int) => c.map fun _ => v
   parseBatch := fun j => do
